@@ -42,6 +42,9 @@ var iaPool = []addr.IA{
 	addr.MustIAFrom(2, 0xff0000000211),
 }
 
+// localIA is the AS whose stores are simulated (beacons name it as their next AS).
+var localIA = addr.MustIAFrom(1, 0xff0000000199)
+
 // rfc6979Key signs deterministically (rand == nil).
 type rfc6979Key struct{ k *ecdsa.PrivateKey }
 
@@ -107,6 +110,7 @@ type pool struct {
 	byKey  map[string]*ver
 	key    crypto.Signer
 	pub    crypto.PublicKey
+	beacon bool // segments are beacons still travelling: the last entry names the next AS
 }
 
 // contentKey identifies a segment by everything that is signed (independent of ID()/FullID()).
@@ -127,7 +131,7 @@ func newPool(r *core.Run, nShapes, maxVers int, beaconLike bool) *pool {
 	if err != nil {
 		panic(core.InfraError{Msg: "keygen: " + err.Error()})
 	}
-	p := &pool{byKey: map[string]*ver{}, key: rfc6979Key{k}, pub: k.Public()}
+	p := &pool{byKey: map[string]*ver{}, key: rfc6979Key{k}, pub: k.Public(), beacon: beaconLike}
 	seen := map[string]bool{}
 	for si := 0; si < nShapes; si++ {
 		n := 1 + (si+r.Choice("shape.len", 4))%4
@@ -225,6 +229,8 @@ func (p *pool) buildVer(r *core.Run, sh *shape, vi int) *ver {
 				MAC: [path.MacLen]byte{1, 2, 3, byte(i), byte(vi), byte(sh.idx)}}}}
 		if i+1 < len(sh.ents) {
 			ase.Next = sh.ents[i+1].ia
+		} else if p.beacon {
+			ase.Next = localIA
 		}
 		note(e.ia, e.in)
 		note(e.ia, e.eg)
